@@ -35,7 +35,9 @@ RULE = ("operation histories over {t[key] (int, negative int, slice incl. revers
         "(a dedicated stream joins consecutive chunks of one run that share a frame: centred before or after the cut, "
         "one or two seams, equal xyz with different time, two-frame overlaps, one-frame operands, empty operands), stack, atom_slice(inplace F/T), remove_solvent, "
         "center_coordinates(mass_weighted F/T), superpose, xyz/time/unitcell_* assignment (fresh or shared arrays)} on "
-        "2-3 initial trajectories (2-6 frames, 3-5 atoms, with/without cell and explicit time); operands are drawn "
+        "2-3 initial trajectories (2-6 frames, 3-5 atoms, with/without cell; time axis absent (int64 arange) / int64 / float32 / "
+        "float64 with fractional values, mixed across operands in both orders; xyz and unit-cell arrays handed over as C float32, "
+        "float64, Fortran-ordered or non-contiguous arrays of the same values; every value compared exactly in float64); operands are drawn "
         "from all registers created so far; a case is non-trivial when it has >= 2 successful ops of >= 2 kinds; "
         "distinct by hash of (specs, ops)")
 TRUSTED = ["harness/impl/traj_impl.py (runs the history through the public API, dumps arrays, shares_memory, oracles)",
@@ -529,10 +531,14 @@ def gen_specs(rng):
     kinds_a = rng.choice([[[1, 2, 3]], [[1, 2, 100], [4]], [[1, 2], [100, 3, 101]], [[5, 100, 6, 7]], [[2, 4], [6]]])
     kinds_b = rng.choice([[[8, 9, 10]], [[1, 3, 2]], [[7, 100], [11, 12]], [[1, 2, 3, 4]], [[100, 101, 1, 2, 3]]])
     cell = rng.random() < 0.7
-    specs = [[rng.randint(2, 6), kinds_a, cell, rng.random() < 0.75],
-             [rng.randint(1, 5), kinds_a, cell if rng.random() < 0.85 else not cell, rng.random() < 0.75]]
+
+    def tkind():
+        # the time axis: absent (int64 arange 0..n-1), int64 frame numbers, float32 / float64 with fractional values
+        return rng.choice([False, "i8", "f4", "f8", "f8", True])
+    specs = [[rng.randint(2, 6), kinds_a, cell, tkind()],
+             [rng.randint(1, 5), kinds_a, cell if rng.random() < 0.85 else not cell, tkind()]]
     if rng.random() < 0.7:
-        specs.append([rng.choice([specs[0][0], rng.randint(1, 5)]), kinds_b, rng.random() < 0.6, rng.random() < 0.75])
+        specs.append([rng.choice([specs[0][0], rng.randint(1, 5)]), kinds_b, rng.random() < 0.6, tkind()])
     return specs
 
 
@@ -656,7 +662,7 @@ def gen_history(rng, specs, length):
                 ops.append(["set_xyz_share", r, rng.choice(cands)])
         elif kind == "set_time":
             if rng.random() < 0.6:
-                ops.append(["set_time_new", r, n if rng.random() < 0.9 else n + 1])
+                ops.append(["set_time_new", r, n if rng.random() < 0.9 else n + 1, rng.choice(["i8", "f4", "f8", True])])
             else:
                 ops.append(["set_time_share", r, rng.randrange(R)])
         else:
@@ -850,6 +856,14 @@ def fixed_probes():
     P.append((s3, [["slice", 0, ["slice", [0, 2, None]], True], ["slice", 0, ["slice", [1, 4, None]], True], ["center", 3, False],
                    ["center", 4, False], ["join", 3, [4], True, None, True], ["set_time_new", 4, 3], ["mdjoin", [3, 4], True],
                    ["slice", 0, ["list", []], True], ["join", 0, [7], True, None, True], ["join", 7, [0], True, None, True]]))
+    # time has no fixed dtype: frame-number (int64) times first, fractional float32 / float64 times later, and the reverse,
+    # through +, join(list), md.join, with and without trimming; every time value must come through unchanged
+    sd = [[3, [[1, 2, 100], [4]], True, False], [3, [[1, 2, 100], [4]], True, "f8"], [2, [[1, 2, 100], [4]], True, "f4"],
+          [2, [[1, 2, 100], [4]], True, "i8"]]
+    P.append((sd, [["join", 0, [1], True, "plus"], ["join", 1, [0], True, "plus"], ["join", 2, [1], True], ["join", 1, [2], True],
+                   ["join", 3, [2, 1], True], ["mdjoin", [0, 1, 2, 3]], ["mdjoin", [2, 3, 1], True], ["join", 0, [2], True, None, True],
+                   ["set_time_new", 1, 3, "i8"], ["join", 1, [2], True], ["slice", 4, ["slice", [None, None, -2]], True],
+                   ["stack", 0, 1], ["atom_slice", 1, [0, 2], False]]))
     # md.join is a reduction: an empty operand in the middle raises IndexError at ITS pairwise step, before a later
     # incompatible operand is looked at (a list join would have refused the incompatible one first)
     P.append((s3, [["slice", 0, ["list", []], True], ["mdjoin", [0, 3, 2], True], ["mdjoin", [0, 2, 3], True], ["mdjoin", [0, 3, 2], False],
@@ -932,7 +946,7 @@ def coq_op(o):
 
 
 def coq_case(c):
-    specs = clist(["(%s, %s, %s, %s)" % (cnat(n), clist([clist(ch, cnat) for ch in chains]), cbool(cell), cbool(et))
+    specs = clist(["(%s, %s, %s, %s)" % (cnat(n), clist([clist(ch, cnat) for ch in chains]), cbool(cell), cbool(bool(et)))
                    for (n, chains, cell, et) in c["specs"]])
     return "(%s, %s)" % (specs, clist([coq_op(o) for o in c["ops"]]))
 
